@@ -22,7 +22,8 @@ RULE = ("for each scenario (version x flavour x {ideal, 1-byte} transport x "
         "operation (or the alert was delivered)"
         " Family dead_peer: the peer died after sending a fatal alert (or data); this endpoint's next send (application data, KeyUpdate, post-handshake CertificateRequest, ClientHello) fails with EPIPE/ECONNRESET while the alert is readable / lost / replaced by data: the call raises, the alert (when readable and the record is handshake-type) surfaces as TLSRemoteAlert, the connection is closed and not resumable."
         ' Under ignoreAbruptClose only a missing close_notify (EOF) may be ignored, a reset must raise.'
-        " Family gone_reply: the peer wrote (heartbeat request,) data and close_notify and is gone; the replies this endpoint owes (heartbeat response, close_notify) fail with EPIPE / reset / timeout while it reads: data is delivered, the next read returns empty, the session stays resumable, writes raise the closed-connection error.  Alert placements also with the alert split into two one-byte records (sender's recordSize 1, TLS <= 1.2).")
+        " Family gone_reply: the peer wrote (heartbeat request,) data and close_notify and is gone; the replies this endpoint owes (heartbeat response, close_notify) fail with EPIPE / reset / timeout while it reads: data is delivered, the next read returns empty, the session stays resumable, writes raise the closed-connection error.  Alert placements also with the alert split into two one-byte records (sender's recordSize 1, TLS <= 1.2)."
+        " Family shut: wclose = a multi-record write parked on a stalled transport while a read of the same connection meets the peer's close_notify (nothing may go out unprotected); cfault = socket.close() raising during the shutdown after a fatal alert / garbage record; eclose = TLS 1.3 client closing with closeSocket off before it has read the server's tickets.")
 LEVEL_TEXT = ("Fault enumeration: exhaustive over the socket-call index space "
               "of the listed scenarios on the ideal transport (and in the "
               "thorough tier also on the 1-byte transport), one fault per "
@@ -40,6 +41,7 @@ PROBES = ["fault_eof", "fault_reset", "fault_epipe", "in_handshake",
           "alert_fatal", "ignore_abrupt", "no_close_socket", "byte_policy",
           "remote_alert_surfaced", "abrupt_close_seen", "orderly_close_seen",
           "dead_peer", "dead_write", "dead_keyupdate", "dead_pha",
+          "shut_wclose", "shut_cfault", "shut_eclose",
           "alert_fragmented", "gone_reply", "gone_heartbeat_sent", "gone_close",
           "gone_data_close",
           "dead_hello", "alert_readable", "alert_lost", "alert_data"]
@@ -269,6 +271,30 @@ def plan(tier, base_seed):
                         jobs.append({"seed": si + 1, "fam": "gone_reply",
                                      "si": si, "policy": "ideal", "fi": fi,
                                      "gone": [actor, var, f]})
+    # three small families around shutdown:
+    #  wclose  - a multi-record write is parked on a stalled transport while a
+    #            read of the same connection meets the peer's close_notify
+    #  cfault  - socket.close() itself reports an error during a shutdown
+    #            that follows a fatal alert
+    #  eclose  - TLS 1.3 client closes (closeSocket off) before it has read
+    #            the tickets the server sent after the handshake
+    for si in ({"quick": [0, 1, 3, 4], "thorough": range(nsc)}[tier]):
+        for fi in range(4):
+            for actor in "cs":
+                for stall in (100, 5000, 17000, 33000):
+                    jobs.append({"seed": si + 1, "fam": "shut", "si": si,
+                                 "policy": "ideal", "fi": fi,
+                                 "shut": ["wclose", actor, stall]})
+                for trig in ("fatal_alert", "garbage"):
+                    jobs.append({"seed": si + 1, "fam": "shut", "si": si,
+                                 "policy": "ideal", "fi": fi,
+                                 "shut": ["cfault", actor, trig]})
+    for si in [i for i in range(nsc) if SCENARIOS[i]["version"] == [3, 4]
+               and "ticketKeys" in SCENARIOS[i].get("sset_extra", {})]:
+        for fi in range(4):
+            jobs.append({"seed": si + 1, "fam": "shut", "si": si,
+                         "policy": "ideal", "fi": fi,
+                         "shut": ["eclose", "c", 0]})
     # base_seed rotates which jobs come first under a budget
     if jobs:
         k = base_seed % len(jobs)
@@ -293,6 +319,8 @@ def run(job, streams=None):
         return run_dead_peer(job, sc, flags)
     if fam == "gone_reply":
         return run_gone_reply(job, sc, flags)
+    if fam == "shut":
+        return run_shut(job, sc, flags)
     if fam == "fault":
         script = BASE_SCRIPT
         pf = tuple(job["fault"])
@@ -499,6 +527,129 @@ def run(job, streams=None):
             "digest": h.hexdigest(), "faults": dict(sim.stats),
             "probes": probes, "steps": sim.steps, "order": "",
             "states": ["%s/%s/%s" % (si, fam, phase)],
+            "streams": {}, "inconclusive": False,
+            "sample": {"scenario": sc, "job": {k: v_ for k, v_ in job.items()
+                                               if k != "keep"}}}
+
+
+def run_shut(job, sc, flags):
+    from tlslite.errors import (TLSClosedConnectionError, TLSRemoteAlert,
+                                TLSLocalAlert, TLSAbruptCloseError)
+    from tlslite.messages import Alert
+    from sim.loop import Lane
+    kind, actor, arg = job["shut"]
+    peer = "s" if actor == "c" else "c"
+    sim = nodes.new_run(job["seed"], chooser=kernel.Chooser(streams={}),
+                        max_steps=400000, sched="first")
+    pair = nodes.Pair(sim, sc, policy="ideal")
+    for ep in (pair.c, pair.s):
+        ep.conn.closeSocket = flags[0]
+        ep.conn.ignoreAbruptClose = flags[1]
+    eps = {"c": pair.c, "s": pair.s}
+    A, P = eps[actor], eps[peer]
+    viol = []
+    probes = {"shut_" + kind: 1}
+    ctx = "[%s %s]" % (json.dumps(sc, sort_keys=True, default=str),
+                       json.dumps({"shut": job["shut"], "fi": job["fi"]}))
+
+    def v(rule, sig, msg):
+        viol.append({"rule": rule, "sig": sig, "msg": msg + " " + ctx})
+
+    oc, os_, st = pair.handshake()
+    if not (oc.kind == "ok" and os_.kind == "ok"):
+        raise RuntimeError("shut baseline handshake failed: %r %r"
+                           % (oc.exc, os_.exc))
+    fired = False
+    if kind == "wclose":
+        secret = b"PLAINTEXT-MARKER-" * 2400          # > 2 records
+        out_pipe = pair.link.c2s if actor == "c" else pair.link.s2c
+        base = len(out_pipe.sent_log)
+        A.sock.stall_after = base + arg
+        W = Lane(A)
+        ow = W.start(("write",), lambda: A.conn.writeAsync(secret))
+        while W.op is not None and W.blocked != "w":
+            W.step()
+        parked = W.op is not None
+        # the peer says goodbye; this endpoint's reader meets the close_notify
+        P.start(("close_notify",),
+                lambda: P.conn._sendMsg(Alert().create(0, 1)))
+        sim.run(until=lambda: P.op is None)
+        orr = A.start(("read",), lambda: A.conn.readAsync(None, 1))
+        while A.op is not None and A.blocked != "w":
+            A.step()
+            sim._deliver()
+        # the transport drains; the parked write is resumed
+        A.sock.stall_after = None
+        st = sim.run()
+        fired = parked and A.conn.closed
+        sent = bytes(out_pipe.sent_log[base:])
+        if b"PLAINTEXT-MARKER" in sent:
+            v("plaintext_on_wire", "wclose|%s" % (
+                "keep_socket" if not flags[0] else "close_socket"),
+              "%s: a write that was waiting for the transport while a read "
+              "shut the connection down went on UNPROTECTED: the "
+              "application data is readable on the wire (%d bytes after "
+              "the stall point)" % (actor, len(sent) - arg))
+        # (a write whose last record was protected before the shutdown may
+        # still complete; only unprotected output is wrong)
+        if fired and ow.kind == "exc" and not isinstance(
+                ow.exc, (TLSClosedConnectionError, OSError)):
+            v("exception_type", "wclose|%s" % type(ow.exc).__name__,
+              "interrupted write raised %r" % (ow.exc,))
+    elif kind == "cfault":
+        A.sock.close_fault = "reset"
+        if arg == "fatal_alert":
+            P.start(("alert",), lambda: P.conn._sendMsg(Alert().create(40, 2)))
+            sim.run(until=lambda: P.op is None)
+        else:
+            out = pair.link.c2s if peer == "c" else pair.link.s2c
+            out.write(bytes([23, 3, 3, 0, 40]) + bytes(40))
+        orr = A.start(("read",), lambda: A.conn.readAsync(None, 1))
+        st = sim.run()
+        fired = bool([f for f in A.sock.fired if f[0] == "close"])
+        if orr.kind != "exc":
+            v("fault_swallowed", "cfault|" + arg, "read returned %r" %
+              (orr.value,))
+        else:
+            if not isinstance(orr.exc, (OSError, TLSRemoteAlert,
+                                        TLSLocalAlert, TLSAbruptCloseError)):
+                v("exception_type", "cfault|%s" % type(orr.exc).__name__,
+                  "read raised %r" % (orr.exc,))
+            closed_after, resumable_after = orr.post
+            if closed_after is False:
+                v("not_closed", "cfault|" + arg, "connection open after %r"
+                  % (orr.exc,))
+            if resumable_after:
+                v("resumable_after_failure", "cfault|" + arg,
+                  "session left resumable after a fatal %s because "
+                  "socket.close() raised during the shutdown (%r)" %
+                  (arg, orr.exc))
+    else:
+        # eclose: no read before the close; the server answers close_notify
+        oc2 = A.start(("close",), lambda: A.conn.closeAsync())
+        sim.run(until=lambda: A.blocked == "r" or A.op is None)
+        P.start(("read",), lambda: P.conn.readAsync(None, 1))
+        st = sim.run()
+        fired = True
+        if oc2.kind == "exc":
+            v("orderly_close_broken", "eclose|%s" % type(oc2.exc).__name__,
+              "close() right after a TLS 1.3 handshake (tickets unread, "
+              "closeSocket=%s) raised %r" % (flags[0], oc2.exc))
+        elif oc2.kind != "ok":
+            v("liveness", "eclose|pending", "close never finished")
+        elif A.conn.session is not None and not A.conn.session.resumable:
+            v("orderly_close_broken", "eclose|not_resumable", "session lost "
+              "resumability in an orderly close")
+    key = json.dumps([job["si"], job["fi"], job["shut"]])
+    h = hashlib.sha256()
+    h.update(bytes(pair.link.c2s.wire_log))
+    h.update(bytes(pair.link.s2c.wire_log))
+    h.update(repr([o.sig() for w in "cs" for o in eps[w].history]).encode())
+    h.update(json.dumps([x["sig"] for x in viol]).encode())
+    return {"violations": viol, "nontrivial": bool(fired), "key": key,
+            "digest": h.hexdigest(), "faults": dict(sim.stats),
+            "probes": probes, "steps": sim.steps, "order": "",
+            "states": ["%s/shut/%s" % (job["si"], kind)],
             "streams": {}, "inconclusive": False,
             "sample": {"scenario": sc, "job": {k: v_ for k, v_ in job.items()
                                                if k != "keep"}}}
